@@ -77,6 +77,25 @@ CLAIMED["C02"] = (
     "Trusts TLC/Json/BigInt.tla (self-checked); dev profile (overflow checks on); three recorded findings for output amounts pinned by the baseline suite.",
     "DESIGN.md section 5, C02")
 
+CLAIMED["C08"] = (
+    "TLC enumeration of every relative order of input references, policy ids and reward accounts (MC_Ledger c08) run through the whole pipeline + TLC trace validation of the decoded redeemer map against the ledger's canonical orderings in DenoteTx (Trace_Lang)",
+    "TLC assigns UTxO references injectively from 3 txids x 3 indices to 2 (quick) / 3 (thorough) script inputs (one optionally multi-UTxO), with 0..3 mint/burn blocks over three policies and 0..2 withdrawals, so that source order, name order and ledger order all differ; "
+    "the real pipeline compiles each and TLC compares the decoded (tag, index) -> data map with the one obtained by sorting inputs by (txid bytes, index), policies and accounts by bytes.",
+    "Trusts TLC/Json, the driver's CBOR / Plutus Data reader; withdrawals from stake addresses only; spend / mint / reward tags (what the language can write).",
+    "DESIGN.md section 5, C08")
+CLAIMED["C09"] = (
+    "TLC-enumerated Plutus Data matrix (MC_Ledger c09: constructor index 0..139 x field count 0..6 x field type) with boundary integers and byte lengths, compiled by the real pipeline, parsed by an independent Plutus Data reader + TLC trace validation against PlutusData.Enc and the standard framing (Trace_Lang)",
+    "For every constructor index of a 140-case variant, field counts 0..6 and field types Int/Bytes/Bool/record/list/map, in datum and redeemer position, with integers across the i128 range and byte strings of 0..100 bytes, TLC compares the tree recovered by the driver's own reader with Enc(value) "
+    "and checks the framing (tags 121-127 / 1280-1400 / 102, CBOR int vs bignum, minimal bignum).",
+    "Trusts TLC/Json/BigInt.tla and the driver's reader written from the Plutus Data CDDL; definite vs indefinite list framing is not judged.",
+    "DESIGN.md section 5, C09")
+CLAIMED["C10"] = (
+    "TLC-enumerated block-presence lattice (MC_Ledger c10) x network x cost models compiled three times in one process and once in a second process, decoded by pallas and by an independent CBOR reader + TLC trace validation of Ledger.WellFormedReason and of payload equality (Trace_Lang)",
+    "For every subset of 12 (quick) / 17 (thorough, sampled) optional blocks TLC validates on the decoded payload: a standard decoder accepts it, the reported hash is the Blake2b-256 of the raw body bytes, aux and script-data hashes are present exactly when needed and equal recomputed digests, "
+    "no empty or duplicate entry in any set/map field, no zero mint, network id as configured, and the payloads of all layouts and of a second process are byte-identical.",
+    "Trusts TLC/Json, pallas' decoder and Blake2b, the driver's CBOR reader; script-data hash recomputed independently for V2/V3 language views.",
+    "DESIGN.md section 5, C10")
+
 ALL = ["C%02d" % i for i in range(1, 21)]
 
 NOT_YET = "check not built yet in this revision of /verif (planned: see DESIGN.md section 5); not claimed until its machinery exists and is quiet on the unchanged tree"
